@@ -41,6 +41,12 @@ Inductive cstate :=
 | CW0         (* Wait: pre-check load next *)
 | CW1         (* Wait: pre-check saw Empty, CAS next *)
 | CWaiting    (* Wait: the event is in the word; asleep until signalled *)
+| CTW0        (* WaitFor/WaitUntil: pre-check load next *)
+| CTW1        (* timed: pre-check saw Empty, CAS next *)
+| CTWaiting   (* timed: the event is in the word; asleep until signalled or until the deadline *)
+| CReset1     (* timed out: ResetImpl's relaxed load saw the event, CAS (event -> Empty) next *)
+| CTWaitingU  (* timed out but the reset failed (the producer already took the event): untimed wait *)
+| CTRet (b : bool)  (* the timed wait is about to return b *)
 | C1          (* final attach: pre-check saw Empty, CAS next *)
 | CAttached   (* final attach: the continuation is in the word *)
 | CInline     (* final attach failed: the continuation runs on the consumer's thread *)
@@ -81,6 +87,8 @@ Inductive ev :=
 | EXchg (old : word)           (* P: exchange(word, Result) returned old *)
 | EPeekBegin                   (* C: enters Ready() / Get const& *)
 | EWaitBegin                   (* C: enters Wait (also the first half of Get&&) *)
+| ETWaitBegin                  (* C: enters WaitFor / WaitUntil *)
+| ETWaitRet (b : bool)         (* C: the timed wait returned b *)
 | ELd (t : who) (v : word)     (* load(word) returned v *)
 | ECas (ok : bool)             (* C: compare_exchange_strong(Empty -> callback) *)
 | ECb (t : who)                (* the user callback ran on t's thread *)
@@ -119,6 +127,12 @@ Definition wake (s : st) : st :=
            cpc := C0; signalled := false; waited := true; tokens := tokens s;
            taken := taken s; cbs := cbs s; gots := gots s; readys := readys s; frees := frees s |}
       else s
+  | CTWaiting | CTWaitingU =>
+      if signalled s then
+        {| kd := kd s; w := w s; is_event := is_event s; slot := slot s; alive := alive s; ppc := ppc s;
+           cpc := CTRet true; signalled := false; waited := waited s; tokens := tokens s;
+           taken := taken s; cbs := cbs s; gots := gots s; readys := readys s; frees := frees s |}
+      else s
   | _ => s
   end.
 
@@ -135,6 +149,19 @@ Definition step_c (s : st) (e : ev) : option st :=
   match e with
   | EPeekBegin => match cpc s with C0 => Some (upd_cpc CPeek s) | _ => None end
   | EWaitBegin => match cpc s with C0 => Some (upd_cpc CW0 s) | _ => None end
+  | ETWaitBegin => match cpc s with C0 => Some (upd_cpc CTW0 s) | _ => None end
+  | ETWaitRet b =>
+      match cpc s with
+      | CTRet b0 =>
+          if Bool.eqb b b0 then
+            Some {| kd := kd s; w := w s; is_event := is_event s; slot := slot s; alive := alive s; ppc := ppc s;
+                    cpc := C0; signalled := signalled s; waited := waited s || b; tokens := tokens s;
+                    taken := taken s; cbs := cbs s; gots := gots s;
+                    readys := readys s ++ [(b, match rd s with Some _ => true | None => false end)];
+                    frees := frees s |}
+          else None
+      | _ => None
+      end
   | ELd C v =>
       if negb (word_eqb v (w s)) then None else
       match cpc s with
@@ -153,6 +180,19 @@ Definition step_c (s : st) (e : ev) : option st :=
                           tokens := tokens s; taken := taken s; cbs := cbs s; gots := gots s;
                           readys := readys s; frees := frees s |}
           | WC => None
+          end
+      | CTW0 =>
+          match v with
+          | WE => Some (upd_cpc CTW1 s)
+          | WR => Some (upd_cpc (CTRet true) s)        (* nothing to wait for *)
+          | WC => None
+          end
+      | CTWaiting =>
+          (* the deadline passed: ResetImpl's load *)
+          match v with
+          | WC => Some (upd_cpc CReset1 s)
+          | WR => Some (upd_cpc CTWaitingU s)          (* expected == kResult: reset fails, wait for the signal *)
+          | WE => None
           end
       | C0 =>
           match kd s with
@@ -188,6 +228,18 @@ Definition step_c (s : st) (e : ev) : option st :=
           | WE => if ok then Some (upd_cpc CAttached (upd_w WC false s)) else None
           | WR => if ok then None else Some (add_token C (upd_cpc CInline s))
           | WC => None
+          end
+      | CTW1 =>
+          match w s with
+          | WE => if ok then Some (upd_cpc CTWaiting (upd_w WC true s)) else None
+          | WR => if ok then None else Some (upd_cpc (CTRet true) s)
+          | WC => None
+          end
+      | CReset1 =>
+          match w s with
+          | WC => if ok then Some (upd_cpc (CTRet false) (upd_w WE false s)) else None
+          | WR => if ok then None else Some (upd_cpc CTWaitingU s)
+          | WE => None
           end
       | CW1 =>
           match w s with
@@ -257,6 +309,13 @@ Definition step (s : st) (e : ev) : option st :=
                     readys := readys s; frees := frees s |}
           else None
       | _ => None
+      end
+  | ELd C v =>
+      (* a timed waiter may be woken by its deadline even though the signal has already been given:
+         its next operation is then ResetImpl's load, which sees Result *)
+      match cpc s with
+      | CTWaiting => step_c s e
+      | _ => step_c (wake s) e
       end
   | _ => step_c (wake s) e
   end.
